@@ -54,6 +54,8 @@ def run(ck: Checker, prog: Program, tier: str):
     ck.guard(_peer, ck, prog)
     ck.guard(_common, ck, prog)
     ck.guard(_argument_purity, ck, prog)
+    ck.guard(_retry_rewinds, ck, prog)
+    ck.guard(_no_wrapping_decorators, ck, prog)
     from . import c04
     with ck.borrow(c04, "C07.R4+"):
         ck.guard(c04._orientation_carried, ck, prog)
@@ -1228,3 +1230,74 @@ def _regex(ck: Checker, prog: Program):
                 ck.ok("C07.R6", "regex", f"{name}: {want} capturing groups", nontrivial=False)
             else:
                 ck.violation("C07.R6", "regex", name, f"{name} has {_groups(pats[name])} capturing groups, the row format has {want} values", loc="hvsrpy/regex.py")
+
+
+def _no_wrapping_decorators(ck: Checker, prog: Program):
+    """A reader returns what the file holds now: no memoising / wrapping decorator on any function of data_wrangler.py."""
+    mod = prog.module("data_wrangler")
+    n = 0
+    for g in prog.funcs.values():
+        if g.module is not mod or g.kind == "lambda":
+            continue
+        n += 1
+        extra = [d for d in g.decorators if d not in ("property", "staticmethod", "classmethod")]
+        if extra:
+            ck.violation("C07.R4", g.qualname, f"decorator {extra[0]}", f"`@{extra[0]}` wraps {g.qualname}: a file that was rewritten (or another in-memory stream) "
+                         f"would be answered from the cache, with the old samples", loc=g.loc())
+        else:
+            ck.ok("C07.R4", g.qualname, "no wrapping decorator", nontrivial=False)
+    ck.floor("C07.R4", n, 10, "functions of data_wrangler.py")
+
+
+def _retry_rewinds(ck: Checker, prog: Program):
+    """A loop that tries several ways of reading the *same* stream (byte orders, formats) must start every attempt from the
+    beginning of an in-memory stream: in each iteration a `seek(0, 0)` on that stream precedes the read whenever the stream is
+    seekable (the test for that may be made inside or before the loop)."""
+    from ..pathtable import PathTable, literals, same_rel, negate
+    mod = prog.module("data_wrangler")
+    n = 0
+    for g in prog.funcs.values():
+        if g.module is not mod or g.kind == "lambda":
+            continue
+        for lp in [x for x in own_nodes(g.node) if isinstance(x, ast.For)]:
+            reads = [c for c in calls_in(lp, "_quiet_obspy_read") if c.args and isinstance(c.args[0], ast.Name)]
+            inner_loops = [x for x in ast.walk(lp) if isinstance(x, ast.For) and x is not lp]
+            reads = [c for c in reads if not any(any(y is c for y in ast.walk(il)) for il in inner_loops)]
+            if len(reads) != 1:
+                continue
+            stream = reads[0].args[0].id
+            targets = {x.id for x in ast.walk(lp.target) if isinstance(x, ast.Name)}
+            if stream in targets or not any(isinstance(x, ast.Try) and any(y is reads[0] for y in ast.walk(x)) for x in ast.walk(lp)):
+                continue            # one read per element, or no retry
+            n += 1
+            F = sp.Function
+
+            def hook(call, T, stream=stream):
+                if isinstance(call.func, ast.Attribute) and call.func.attr == "seek" and isinstance(call.func.value, ast.Name) and call.func.value.id == stream:
+                    return F("<seek>")(*[T.tr(a) for a in call.args])
+                if call_name(call) == "_quiet_obspy_read":
+                    return F("<read>")(T.tr(call.args[0]))
+                return None
+            leaves = PathTable(prog, g.module, call_hook=hook, structured=True).leaves(lp.body)
+            seeking, silent = [], []
+            for l in leaves:
+                names = [getattr(getattr(e[2], "func", None), "__name__", "") for e in l.events] + \
+                        [fn_.func.__name__ for v in l.env.values() if hasattr(v, "atoms") for fn_ in v.atoms(sp.Function) if fn_.func.__name__ == "<read>"]
+                if "<read>" not in names:
+                    continue
+                i_read = names.index("<read>")
+                rew = [e for e in l.events[:i_read + 1] if getattr(getattr(e[2], "func", None), "__name__", "") == "<seek>" and list(e[2].args[:1]) == [sp.Integer(0)]
+                       and (len(e[2].args) == 1 or e[2].args[1] == 0)]
+                (seeking if rew else silent).append(l)
+            ok = bool(seeking)
+            for l in silent:
+                ll = literals(l)
+                if not any(any(same_rel(x, negate(y)) for x in ll) for s_ in seeking for y in literals(s_)):
+                    ok = False
+            if ok:
+                ck.ok("C07.R6", g.qualname, f"every attempt on `{stream}` starts from the beginning of an in-memory stream", detail=f"{len(seeking)} rewinding path(s)")
+            else:
+                ck.violation("C07.R6", g.qualname, f"retry loop over `{norm_key(lp.iter, 40)}`",
+                             f"an attempt of the retry loop reads `{stream}` without rewinding it first: after a failed attempt an in-memory file is read from "
+                             f"where that attempt stopped, and a valid file is refused", loc=g.loc(lp))
+    ck.floor("C07.R6", n, 1, "retry loops over one stream")
